@@ -309,6 +309,16 @@ class Exec:
         if s.check() == z3.unsat:
             self.pruned += 1
             raise PathEnd()
+        if len(qf) != len(self.hyps):
+            # second try with the quantified hypotheses too (E-matching only, short budget)
+            s2 = z3.SimpleSolver()
+            s2.set("timeout", 400)
+            s2.set("smt.mbqi", False)
+            s2.add(*self.hyps)
+            s2.add(*self.prop.distinct_axioms())
+            if s2.check() == z3.unsat:
+                self.pruned += 1
+                raise PathEnd()
 
     def choose(self, n, on_choice=None):
         if self.dpos < len(self.decisions):
@@ -1581,7 +1591,20 @@ class Exec:
         raise Unsupported("dict literal with non-constant keys")
 
     def ev_Set(self, e):
-        raise Unsupported("set literal")
+        from .builtins import empty_set
+
+        items = [lift(self.eval(x)) for x in e.elts]
+        if all(isinstance(x, StrV) for x in items):
+            s = empty_set(V.Elem)
+            for x in items:
+                s = SetV(V.Elem, z3.Store(s.arr, V.str_elem(x.s), z3.BoolVal(True)))
+            return s
+        if all(is_z3(x) for x in items) and len({x.sort() for x in items}) == 1:
+            s = empty_set(items[0].sort())
+            for x in items:
+                s = SetV(items[0].sort(), z3.Store(s.arr, x, z3.BoolVal(True)))
+            return s
+        raise Unsupported("set literal of mixed / compound elements")
 
     def ev_JoinedStr(self, e):
         return StrV("<f-string>")
